@@ -264,6 +264,15 @@ class PeerSim(Sim):
             cls, sender, target = SimClient, "CLI", "SRV"
         if cfg["eut_in"] != 1 or cfg["eut_out"] != 1:
             s = self.journal.create_or_load(target, sender)
+            if cfg.get("prefill_out"):
+                # the journal of an earlier connection: application messages behind the outbound counter, so that a
+                # ResendRequest of the peer has something to retransmit (should_replay() is asked for each)
+                from ..core import EPOCH
+
+                for n in range(1, cfg["eut_out"]):
+                    body = [("11", f"J-{n}"), ("55", "ES"), ("54", "1"), ("38", n), ("44", "2.5")]
+                    fr = refframer.build("D", body, sender, target, n, fix_time(EPOCH - 5000 + n))
+                    self.journal.persist_msg(fr, s, MessageDirection.OUTBOUND)
             self.journal.set_seq_num(s, next_num_out=cfg["eut_out"], next_num_in=cfg["eut_in"])
             self.journal.live = None
         self.eut = make_endpoint(self, cls, "E", sender, target, self.journal, HOST, PORT, cfg["hb"])
